@@ -233,10 +233,10 @@ theorem dedupGo_filter (x : Str) (seen l : List Str) :
 
 /-- keep-first: the head stays, every later copy of it goes, the rest is treated the same way -/
 theorem dedupKeepFirst_cons (x : Str) (l : List Str) :
-    dedupKeepFirst (x :: l) = x :: dedupKeepFirst (l.filter (· ≠ x)) := by
-  simp [dedupKeepFirst, dedupGo, dedupGo_filter]
+    tdDedupKeepFirst (x :: l) = x :: tdDedupKeepFirst (l.filter (· ≠ x)) := by
+  simp [tdDedupKeepFirst, dedupGo, dedupGo_filter]
 
-theorem dedupKeepFirst_nil : dedupKeepFirst [] = [] := rfl
+theorem dedupKeepFirst_nil : tdDedupKeepFirst [] = [] := rfl
 
 /-- keep-first on items compared by a key (specification side) -/
 def dedupOnGo {α} (key : α → Str) (seen : List Str) : List α → List α
@@ -254,7 +254,7 @@ theorem dedupGo_map {α} (key : α → Str) (seen : List Str) (l : List α) :
     split <;> simp [ih]
 
 theorem dedupKeepFirst_map {α} (key : α → Str) (l : List α) :
-    dedupKeepFirst (l.map key) = (dedupOn key l).map key := dedupGo_map key [] l
+    tdDedupKeepFirst (l.map key) = (dedupOn key l).map key := dedupGo_map key [] l
 
 theorem dedupOnGo_mem {α} (key : α → Str) (seen : List Str) (l : List α) (a : α) (h : a ∈ dedupOnGo key seen l) :
     a ∈ l := by
